@@ -2,6 +2,8 @@ import Afkak.Monitor.C01
 import AfkakProofs.Producer.Once
 import AfkakProofs.Producer.Truth
 import AfkakProofs.Producer.RelStep
+import AfkakProofs.Producer.ExactlyOnce
+import AfkakProofs.Producer.Acks0
 import AfkakProps.Open.C01
 /-!
 # C01 — Producer acknowledgements are truthful and fire exactly once
@@ -89,6 +91,40 @@ theorem C01_never_dropped (cfg : Cfg) (st : St) (e : Ev) (s : Sid) (hs : s ∈ s
   · exact List.mem_append_left _ hs
   · exact hs
 
+/-- Fires — trace level, for EVERY event list: whenever no batch is in flight (`_batch_send_d is None`)
+    everything still in `_outstanding` is still queued, i.e. every send that was dispatched has fired -
+    as long as every result the client gave so far accounted for every payload of its request (C07;
+    with acks = 0: had the shape of an answer to a request without acknowledgements).  This is the
+    monitor evaluated on traces of the real Producer. -/
+theorem C01_fires_exactly_once (cfg : Cfg) (evs : List Ev) : resolvedFired cfg (traceOf cfg evs) = true :=
+  resolvedFired_model cfg evs
+
+/-- Fires exactly once — as a statement about runs, the environment's part spelled out.
+    HYPOTHESIS (`Accounted`, the client contract C07): every result the client gives for a produce request
+    (also as the answer to its cancellation by `stop`) accounts for every payload of that request - each
+    payload has a response or is listed as failed; the empty answer and total failures account for all.
+    CONCLUSION: whenever no batch is in flight, every accepted send (every id below `nextSid`, including
+    those refused for having no messages) is still queued, or its Deferred has fired EXACTLY once in the
+    run.  (No fairness is needed for this form: "the batch resolved" is the premise `phase = idle`; that a
+    batch in flight resolves needs the client to answer and timers to fire, which are events here.) -/
+theorem C01_fires_exactly_once_run (cfg : Cfg) (evs : List Ev) (hacc : Accounted cfg (St.init cfg) evs)
+    (hidle : (run cfg (St.init cfg) evs).1.phase = .idle) :
+    ∀ s, s < (run cfg (St.init cfg) evs).1.nextSid →
+      s ∈ queued (run cfg (St.init cfg) evs).1 ∨ (firedSids (run cfg (St.init cfg) evs).2).count s = 1 :=
+  run_fires_exactly_once cfg evs hacc hidle
+
+/-- … and never more than once, whatever the client does: the fired ids of a whole run are distinct. -/
+theorem C01_run_fires_nodup (cfg : Cfg) (evs : List Ev) : (firedSids (run cfg (St.init cfg) evs).2).Nodup :=
+  run_fires_nodup cfg evs
+
+/-- acks = 0 succeeds — for EVERY event list and any state: with acknowledgements disabled, in a step that
+    handles the client's empty answer (`None` / no responses: the request was handed to the connection),
+    also as the answer to the cancel in `stop`, no send fails with `NoResponseError` - the batch's sends
+    succeed with `None`, and whatever else fires in the step (look-up failures of the next batch, cancels)
+    fails with its own error. -/
+theorem C01_acks0_succeeds (cfg : Cfg) (evs : List Ev) : acks0 cfg (traceOf cfg evs) = true :=
+  acks0_model cfg evs
+
 /-! Non-vacuity: a run in which Deferreds do fire (an acknowledged send, a cancelled one). -/
 def exCfg : Cfg := Cfg.ofArgs 1 3 (1/4) false 1 1 none false
 def exEvs : List Ev :=
@@ -105,9 +141,11 @@ C01_success_only_if_acked_step
 C01_acks0
 C01_otherwise_fails
 C01_never_dropped
+C01_fires_exactly_once
+C01_fires_exactly_once_run
+C01_run_fires_nodup
+C01_acks0_succeeds
 -/
 /- OPEN_STATEMENTS
-C01_fires_exactly_once
 C01_payload_integrity
-C01_acks0_succeeds
 -/
